@@ -5,7 +5,8 @@ Local Open Scope string_scope. Local Open Scope list_scope.
 
 Inductive delim := Paren | Bracket | Brace.
 Inductive punct := PComma | PBang | PQuote | PAmp | PColon | PLt | PGt | PSemi | PEq | PPlus | PMinus | PHash | POther.
-(* literals: the ones the parser looks into are unsuffixed decimal numbers (array lengths, const defaults) and strings (attribute values) *)
+(* literals: the ones the parser looks into are integer literals (array lengths, const defaults: LNat is the VALUE, whatever the spelling -
+   `16`, `0x10`, `1_6`, `16usize`; since the repair of D25 the parser reads them the way rustc does) and strings (attribute values) *)
 Inductive lit := LNat (n: nat) | LStr (s: string).
 Inductive tt := TId (s: string) | TP (c: punct) | TLit (l: lit) | TG (d: delim) (ts: list tt).
 
